@@ -264,14 +264,14 @@ def _check_blur(psf, H, W, rng):
     tol = 1e-12 * max(1.0, np.abs(psf).max())
     if not np.allclose(B[..., 1], want, atol=tol):
         return {"what": "impulse response is not the centred PSF", "got": B[..., 1], "want": want}
-    if np.abs(B[..., [0, 2, 3]]).max() > tol:
+    if not (np.abs(B[..., [0, 2, 3]]).max() <= tol):
         return {"what": "channels are not independent"}
     Qr = rng.standard_normal((H, W, 4))
     Br = q.apply_blur_fft(Qr, psf)
     for c in range(4):
         if not np.allclose(Br[..., c], circ_conv(Qr[..., c], psf), atol=1e-10):
             return {"what": f"channel {c} is not the centred circular convolution"}
-        if abs(Br[..., c].sum() - psf.sum() * Qr[..., c].sum()) > 1e-9 * max(1, abs(Qr[..., c]).sum()):
+        if not (abs(Br[..., c].sum() - psf.sum() * Qr[..., c].sum()) <= 1e-9 * max(1, abs(Qr[..., c]).sum())):
             return {"what": "mass not preserved"}
     return None
 
@@ -358,7 +358,7 @@ def bounded(rep: Report, tier, seed):
     for nm, psf in (("gauss r1", q.build_psf_gaussian(1, 0.8)), ("gauss r2", q.build_psf_gaussian(2, 1.5)), ("motion 3@30", q.build_psf_motion(3, 30.0)),
                     ("motion 4@90", q.build_psf_motion(4, 90.0)), ("motion 1", q.build_psf_motion(1, 0.0))):
         def f(psf=psf):
-            if abs(psf.sum() - 1.0) > 1e-12 or psf.min() < 0:
+            if not (abs(psf.sum() - 1.0) <= 1e-12 and psf.min() >= 0):
                 return {"what": "generated PSF is not non-negative with unit sum", "sum": float(psf.sum())}
             return _check_blur(psf, max(6, psf.shape[0]), max(5, psf.shape[1]), rng)
         b.case(f"{P}.bounded.psf_generator", (nm,), f, f"PSF generator {nm}", inputs={"psf": psf})
